@@ -1,0 +1,8 @@
+//go:build !verif
+// +build !verif
+
+package raft
+
+func verifPoint(point string, args ...interface{}) {}
+
+func verifReplPark(r *replication, req *appendReq) bool { return false }
